@@ -93,7 +93,11 @@ def main():
             import hashlib
             h = hashlib.sha1(wt.encode()).hexdigest()[:8]
             shutil.rmtree(os.path.join(HOME, ".build", "alt", h), ignore_errors=True)
-        with open(os.path.join(seed, "eval.json"), "w") as f:
+        outname = "eval.json"
+        for fl in flags:
+            if fl.startswith("--out="):
+                outname = fl[6:]
+        with open(os.path.join(seed, outname), "w") as f:
             json.dump(res, f, indent=1)
         print(json.dumps({k: v for k, v in res.items() if k not in ("demo_output",)}, indent=1)[:6000])
 
